@@ -267,6 +267,10 @@ def _exprs(n: int, labels_txt: List[str]):
         E.append((f'W[`{a}`] - X[:2]', lambda C, pos: [C['W'][pos(a)] - x for x in C['X'][:2]]))
         E.append((f'X[-2:] + W[`{last}`]', lambda C, pos: [x + C['W'][pos(last)] for x in C['X'][-2:]]))
         E.append((f'X[2] + W[`{a}`]', lambda C, pos: C['X'][2] + C['W'][pos(a)]))
+        # mixed slices (round 13): the backticked end is a label (inclusive as a stop), the plain end stays positional
+        E.append((f'X[`{a}`:2]', lambda C, pos: C['X'][pos(a):2]))
+        E.append((f'X[1:`{last}`]', lambda C, pos: C['X'][1:pos(last) + 1]))
+        E.append((f'X[`{a}`:-1]', lambda C, pos: C['X'][pos(a):-1]))
     return E
 
 
